@@ -166,6 +166,15 @@ def shape(bs):
     return "".join(out)
 
 
+def accept_detail(lexeme):
+    """Signature detail for a lexeme the lexer accepted and the grammar does not form: the places where
+    a '_' touches a non-digit, else the beginning of its shape."""
+    t = bytes(lexeme).decode("latin-1")
+    bad = sorted({t[i:i + 2] for i in range(len(t) - 1)
+                  if (t[i] == "_" and not t[i + 1].isdigit()) or (t[i + 1] == "_" and not t[i].isdigit())})
+    return ",".join(bad) if bad else shape(lexeme)[:6]
+
+
 def compare(case, r):
     """case: specification case {b, st, cls, at, t}; r: harness result.
     Returns None (agreement) or (class, tokenkind_or_errorclass, text, detail)."""
@@ -215,7 +224,7 @@ def compare(case, r):
             at = next((t for t in obs if t[1] <= case["at"] < t[2]), obs[-1])
             return ("accepts-invalid", cls,
                     f"{show(bs)}: no token of the grammar starts at offset {case['at']} ({cls}), "
-                    f"lexer yields {at} there ({len(obs)} tokens)", shape(bs[at[1]:at[2]]))
+                    f"lexer yields {at} there ({len(obs)} tokens)", accept_detail(bs[at[1]:at[2]]))
         e = a["error"]
         if e["kind"] not in ERR_CLASS[cls]:
             return ("error-class", cls,
